@@ -649,8 +649,13 @@ CHECKS = {
     'C04': {'runs': c04_runs,
             'explanation': 'C04: expiries and every clock reading are solver unknowns; wait-entry oracle bounds the '
                            'requested sleep (or the armed timerfd) by every registered expiry relative to the clock '
-                           'reading the library used; handler-entry oracle: clock >= expiry, once.',
-            'bounds': {'quick': '2 timers + 1 always-readable fd, 7 iterations (timerfd optimisation engages), times '
+                           'reading the library used; handler-entry oracle: clock >= expiry, once; the public clock iv_now read '
+                           'from handlers (with iv_invalidate_now in between) is >= the expiry inside a timer handler, '
+                           'never runs backwards, never ahead of the kernel clock; a timer due when a wait returned '
+                           'has run at the latest one iteration later.',
+            'bounds': {'quick': 'iv_now run: 2 timers, 3 iterations, 2 operations per handler (epoll-timerfd; all methods, '
+                                '4 iterations in thorough); '
+                                '2 timers + 1 always-readable fd, 7 iterations (timerfd optimisation engages), times '
                                 'within one second (nsec unknown) and the zero instant; full (sec,nsec) unknown pairs '
                                 'for 2 iterations', 'thorough': '9 iterations with 1 timer operation, 7 iterations with 2; '
                                 'timer descriptor x task and x unregister runs as in quick'},
@@ -674,8 +679,11 @@ CHECKS = {
     'C06': {'runs': c06_runs,
             'explanation': 'C06: tasks registered from setup and from task/fd/timer handlers (choice by forking); '
                            'oracles: once per registration, unregistered on entry, zero timeout while a task is '
-                           'pending, re-registration by an already-run task deferred past the next poll.',
-            'bounds': {'quick': 'J=2 tasks + 1 fd + 1 timer, <=2 actions per callback, 3 operations, 3 iterations',
+                           'pending, re-registration by an already-run task deferred past the next poll; tasks that keep '
+                           're-registering do not keep timers from running (kernel clock advancing 0.4 s per iteration '
+                           'past the expiry of registered timers: a due timer runs at the latest one iteration later).',
+            'bounds': {'quick': 'J=2 tasks + 1 fd + 1 timer, <=2 actions per callback, 3 operations, 3 iterations; '
+                                'task chain of 9 rounds with 2 timers (concrete clock, one path per choice)',
                        'thorough': 'J=3, 4 operations, 4 methods'},
             'outside': LOOP_OUTSIDE, 'assumptions': ENV_ASSUMPTIONS},
     'C07': {'runs': c07_runs,
@@ -739,7 +747,10 @@ CHECKS = {
                            '(checked at quiescence), no interest runs more often than deliveries/hand-offs named it, '
                            'required hand-off from an unregistered exclusive interest, disposition restored, child '
                            'copy after fork() wakes nothing.',
-            'bounds': {'quick': '2-3 interests, 1-2 loop threads, 2 deliveries, 1-2 unregistrations from handlers, '
+            'bounds': {'quick': 'signals are delivered at waits, at unblocking and (by choice) right after a lock '
+                                'acquisition; two signal numbers with the second arriving during the processing of the '
+                                'first (preemption bound 2); '
+                                '2-3 interests, 1-2 loop threads, 2 deliveries, 1-2 unregistrations from handlers, '
                                 'preemption bound 1-2', 'thorough': '3 deliveries, bound 2-3, 3 interests over 2 threads'},
             'outside': 'delivery between two instructions that are not system-call boundaries or waits; the harness '
                        'serialises its ghost-set update with deliveries (every real execution orders the library\'s '
@@ -754,7 +765,9 @@ CHECKS = {
                            'delivered to an interest are exactly, in order, those wait4 handed to the library for its '
                            'pid while it was registered; nothing after termination; no zombie at quiescence; kill never '
                            'reaches a pid whose termination was reaped; strangers are harmless.',
-            'bounds': {'quick': '2-3 children (0-1 strangers), 3-4 state changes, 2 handler operations, preemption '
+            'bounds': {'quick': 'owner calling iv_wait_interest_kill on its own while another thread reaps (2 loops, '
+                                '3 children); '
+                                '2-3 children (0-1 strangers), 3-4 state changes, 2 handler operations, preemption '
                                 'bound 1-2, interests in one thread; plus two loop threads with one interest each, '
                                 'one of them spawning a child that exits at once', 'thorough': '4-5 state changes, bound 2'},
             'outside': 'interests spread over several threads with registrations concurrent to reaping (the ghost '
@@ -825,7 +838,9 @@ CHECKS = {
                            'events, raw events, pump buffers, signal interest, a child thread; after every cycle no '
                            'library heap block, descriptor or thread may be left; registered descriptors are '
                            'non-blocking and close-on-exec.',
-            'bounds': {'quick': '2 cycles x (main thread + thread) per method, 20 timers, preemption bound 1',
+            'bounds': {'quick': '2 cycles x (main thread + thread) per method, 20 timers, preemption bound 1; every '
+                                'cycle with a failing iv_fd_register_try and an application iv_tls_user module '
+                                '(init/deinit hooks paired per thread, iv_tls_user_ptr/iv_inited inside and outside a loop)',
                        'thorough': '3 cycles, bound 2'},
             'outside': 'long-run growth beyond the cycles executed; kqueue/dev-poll/port back ends',
             'assumptions': ENV_ASSUMPTIONS},
